@@ -399,6 +399,7 @@ def _summarise(frame, target, iter_node, body, env, guard: G, node) -> bool:
         closed: Dict[str, Rat] = {}
         incs: Dict[str, Rat] = {}
         delayed: Dict[str, Rat] = {}
+        sums: Dict[str, Rat] = {}
         varname = str(var)
         recnames = [str(r_) for r_ in rec.values()]
         for n in carried:
@@ -427,8 +428,16 @@ def _summarise(frame, target, iter_node, body, env, guard: G, node) -> bool:
             if not isinstance(new, Rat) or not isinstance(env[n], Rat):
                 raise NoSummary(f"{n} is carried and not a plain affine update")
             c = new.sub(rec[n])
-            if mentions(c, recnames + [varname] + names):
-                raise NoSummary(f"{n}: increment is not loop invariant")
+            if mentions(c, recnames + names):
+                raise NoSummary(f"{n}: increment depends on carried state")
+            if mentions(c, [varname]):
+                # a running sum  x' = x + F(var): nothing else may read x inside the loop; afterwards x0 + sum of F
+                others = [m_ for m_ in carried if m_ != n and mentions(end.get(m_), [str(rec[n])])]
+                read_in_acc = any(mentions(v_, [str(rec[n])]) or mentions(g_, [str(rec[n])]) for a_ in accs for g_, v_, _s in per[a_])
+                if others or read_in_acc:
+                    raise NoSummary(f"{n}: partial sums are read inside the loop")
+                sums[n] = c
+                continue
             incs[n] = c
             closed[n] = env[n].add(var.sub(lo).div(step).mul(c))
         if closed:
@@ -452,6 +461,12 @@ def _summarise(frame, target, iter_node, body, env, guard: G, node) -> bool:
         for n, c in incs.items():
             after[n] = env[n].add(hi.sub(lo).div(step).mul(c))
             ev.summary_assumptions.add("summarised loops run a non-negative number of iterations (hi >= lo)")
+        for n, F in sums.items():
+            if closed:
+                # the summand was computed before the closed forms were known: re-read it
+                new2 = end.get(n)
+                F = new2.sub(rec[n]) if isinstance(new2, Rat) else F
+            after[n] = env[n].add(_sigma(ev, F, var, lo, hi, step, depth))
         for n in tnames + [n for n in stored if n not in env and n not in tnames]:
             after[n] = ev.fresh_sym(n + "@after")
     # ---- commit ---------------------------------------------------------------------------
@@ -471,6 +486,50 @@ def _summarise(frame, target, iter_node, body, env, guard: G, node) -> bool:
         else:
             env[n] = v
     return True
+
+
+def _sigma(ev, F: Rat, var: Rat, lo: Rat, hi: Rat, step: Rat, depth: int) -> Rat:
+    """sum of F(var) for var in range(lo, hi, step).  When var only occurs as the position of element-wise array
+    expressions that are read over their whole length, this is the plain array sum (np.sum of the element-wise
+    expression); otherwise an opaque sum over a generator block."""
+    vname = str(var)
+    if step.is_const() == 1 and lo.is_zero():
+        mapping_ok = True
+        repl = {}
+        for at_ in F.all_atoms():
+            if at_.kind == "fn" and at_.name == "at" and len(at_.args) == 2 and at_.args[1].equals(var):
+                arr = at_.args[0]
+                try:
+                    ln = ev.length_of(arr)
+                except Exception:
+                    mapping_ok = False
+                    break
+                if not ln.equals(hi):
+                    mapping_ok = False
+                    break
+                repl[at_.skey] = arr
+        if mapping_ok and repl:
+            def conv(r: Rat) -> Rat:
+                def conv_poly(p):
+                    acc = Rat.const(0)
+                    for m, c in p.items():
+                        term = Rat.const(c)
+                        for a_, e_ in m:
+                            if a_.skey in repl:
+                                base = repl[a_.skey]
+                            elif a_.kind == "fn" and a_.args:
+                                base = anf.apply_fn(a_.name, tuple(conv(x) for x in a_.args), a_.array or any(conv(x).is_array() for x in a_.args), a_.extra)
+                            else:
+                                base = Rat.from_atom(a_)
+                            term = term.mul(base.pow(e_))
+                        acc = acc.add(term)
+                    return acc
+                return conv_poly(r.num).div(conv_poly(r.den))
+            G_ = conv(F)
+            if vname not in G_.symbols():
+                return anf.f_sum(G_, hi)
+    g = mk_gen(depth, lo, hi, step, [(TRUE, F, False)])
+    return anf.opaque("sigma", ev.to_rat(g), array=False)
 
 
 def comprehension(frame, e, env):
